@@ -6,6 +6,7 @@ sampler into its retry limit and the dense fallback at *any* m.  Every
 adversarial outcome has positive probability in the real program.
 """
 import itertools
+import os
 
 import cnfgen
 from cnfgen import CNF
@@ -82,6 +83,9 @@ def _ref_all_parities(k, n, planted):
 def generate(rng, config):
     n = rng.choice([0, 1, 2, 3, 3, 4, 4, 5, 6, 7])
     k = rng.choice(list(range(0, n + 2)))
+    if os.environ.get("VERIF_TIER") == "thorough" and rng.random() < 0.1:
+        n = rng.choice([8, 9, 10])
+        k = rng.choice([0, 1, 2, 3, n, n + 1])
     if config == "cli":
         n = max(1, n)
         k = max(1, min(k, n + 1))
@@ -131,8 +135,11 @@ def generate(rng, config):
 def execute(case, ctx):
     kind, k, n, m = case["kind"], case["k"], case["n"], case["m"]
     planted = [list(a) for a in case["planted"]]
+    # a correct run needs at most 10*m sparse trials of (1 + k) draws plus
+    # one dense sample: the progress bound scales with the request
     sim = SimRandom(case["prng"]["seed"], case["prng"]["strategy"],
-                    case["prng"]["budget"], max_draws=80_000)
+                    case["prng"]["budget"],
+                    max_draws=20_000 + 25 * (m + 1) * (k + 2))
     klass = CNF if case["klass"] == "CNF" else OPB
     fn = cnfgen.RandomKCNF if kind == "kcnf" else cnfgen.RandomKXOR
     climsg._prefix = ""
